@@ -25,9 +25,10 @@ Conventions.
   a prepared key is the exact `Hal.PMat` of its `dnum × rank_in` rows of `rank_out+1` columns.
 * The only back-end dependent ingredient is the width of the big accumulator (`i64` for FFT64, `i128`
   for NTT120): parameter `big128`.
-* Uninitialised scratch that the code *reads before writing* is an explicit parameter (`dft0`, the
-  previous content of the `res_dft` scratch buffer of the fused automorphism forms, which — unlike
-  `glwe_keyswitch` — do not zero it).  Scratch that is written before it is read is created zeroed.
+* The `res_dft` scratch buffer of the fused automorphism forms is not zeroed by them (unlike
+  `glwe_keyswitch`); its previous content is the explicit parameter `dft0`.  Since poulpy d3c2e96
+  `gglwe_product_dft` zeroes the limbs its first pass skips, so the result no longer depends on `dft0`
+  (theorem `C03.product_determined`).  Scratch that is written before it is read is created zeroed.
 * `assert!`s of the API entry points are `Outcome.panic "assert"`.
 -/
 
@@ -94,6 +95,10 @@ structure ProdSt where
   ai : Buf
   tmp : Buf
 
+/-- `for j in written..b.size { zero_at(b, col, j) }`: the active limbs `≥ written` of column `col` zeroed -/
+def zeroFrom (b : Buf) (col written : Nat) : Buf :=
+  b.setAct col ((b.act col).take written ++ List.replicate (b.size - written) (zeroP b.n))
+
 /-- one pass of the `di` loop of the `dsize > 1` branch -/
 def productStep (a : Buf) (key : Key) (st : ProdSt) (di : Nat) : ProdSt :=
   let dsize := key.dsize
@@ -105,7 +110,13 @@ def productStep (a : Buf) (key : Key) (st : ProdSt) (di : Nat) : ProdSt :=
   -- for j in 0..cols { vec_znx_dft_copy(dsize, dsize - di - 1, &mut ai_dft, j, a, j) }
   let ai := (List.range a.cols).foldl (fun (acc : Buf) j => opDftApply dsize (dsize - di - 1) acc j a j) ai
   if di = 0 then
-    { res := opVmp res ai pmat 0, ai := ai, tmp := st.tmp }
+    -- res = pmat * ai_dft; then the limbs skipped at di = 0 are zeroed:
+    -- let written = res.size(); res.set_size(pmat.size()); for col { for j in written..pmat.size() { zero_at(res, col, j) } }
+    let r0 := opVmp res ai pmat 0
+    let written := r0.size
+    let r1 := { r0 with size := pmat.size }
+    let r2 := (List.range r1.cols).foldl (fun (acc : Buf) col => zeroFrom acc col written) r1
+    { res := r2, ai := ai, tmp := st.tmp }
   else
     -- res_dft_tmp.set_size(res.size()); vmp_apply_dft_to_dft(res_dft_tmp, ai_dft, pmat, di)
     let tmp := opVmp { st.tmp with size := res.size } ai pmat di
